@@ -258,6 +258,19 @@ fn emit_rgba(enc: &mut TTYEncoder, out: &mut Vec<u8>, role: Role, c: [u8; 4]) ->
     enc.encode(&mut *out, cmd).map_err(|e| format!("encode error: {e:?}"))
 }
 
+/// One command that sets foreground and background together (`Face` or `FaceModify`).
+fn emit_both(enc: &mut TTYEncoder, out: &mut Vec<u8>, modify: bool, fg: [u8; 4], bg: [u8; 3]) -> Result<(), String> {
+    out.clear();
+    let fg = RGBA::new(fg[0], fg[1], fg[2], fg[3]);
+    let bg = RGBA::new(bg[0], bg[1], bg[2], 255);
+    let cmd = if modify {
+        TerminalCommand::FaceModify(FaceModify { fg: Some(fg), bg: Some(bg), ..FaceModify::default() })
+    } else {
+        TerminalCommand::Face(Face { fg: Some(fg), bg: Some(bg), ..Face::default() })
+    };
+    enc.encode(&mut *out, cmd).map_err(|e| format!("encode error: {e:?}"))
+}
+
 struct Fail {
     kind: &'static str,
     /// how far beyond the oracle (distance excess, or luma error); larger = worse
@@ -552,6 +565,26 @@ fn sweep_history(pal: &Palette, depth: ColorDepth) -> (u64, Vec<(String, u64, Va
                 for &b in &values {
                     let c = [r, g, b];
                     for first_c in [[r, g, b, 255], [r, g, b ^ 1, 255], [r, g, b, 128]] {
+                        // the two colours in ONE command: the background must not depend on the foreground next to it
+                        for modify in [false, true] {
+                            evals += 1;
+                            let mut enc = new_encoder(depth);
+                            let res = match catch(|| emit_both(&mut enc, &mut out, modify, first_c, c)) {
+                                Err(p) => Err(Fail { kind: "panic", level: None, excess: 0.0, detail: format!("panicked: {}", p.message) }),
+                                Ok(Err(e)) => Err(Fail { kind: "encode-error", level: None, excess: 0.0, detail: e }),
+                                Ok(Ok(())) => judge(pal, if modify { Role::ModBg } else { Role::Bg }, depth, c, &out, false),
+                            };
+                            if let Err(f) = res {
+                                let role = if modify { Role::ModBg } else { Role::Bg };
+                                let key = format!("{}:{}:with-fg-in-same-command:{}", role.name(), depth_name(depth), f.kind);
+                                let e = fails.entry(key).or_insert_with(|| {
+                                    let mut w = witness(role, depth, c);
+                                    w["same_command_fg"] = json!([hex_color([first_c[0], first_c[1], first_c[2]]), first_c[3]]);
+                                    (0, w, String::new())
+                                });
+                                e.0 += 1;
+                            }
+                        }
                         for first_role in ALL_ROLES {
                             for role in ALL_ROLES {
                                 if role == Role::Ul && depth == ColorDepth::Gray {
@@ -775,7 +808,19 @@ pub fn replay(w: &Value) -> Result<(bool, String), String> {
             before.push_str(&format!("after {} alpha {} as {} (emitted {}) on the same encoder: ", hex_color(c0), a0, r0.name(), crate::engine::util::esc(&out)));
         }
     }
-    let first = eval_once(&pal, &mut enc, &mut out, role, depth, c, true);
+    let first = if let Some(fgv) = w.get("same_command_fg") {
+        // foreground and background set by one command; the background is judged
+        let fc = fgv[0].as_str().and_then(parse_hex).ok_or("bad same_command_fg")?;
+        let fa = fgv[1].as_u64().unwrap_or(255) as u8;
+        before.push_str(&format!("in one command with fg {} alpha {}: ", hex_color(fc), fa));
+        match catch(|| emit_both(&mut enc, &mut out, matches!(role, Role::ModBg), [fc[0], fc[1], fc[2], fa], c)) {
+            Err(p) => Err(Fail { kind: "panic", level: None, excess: 0.0, detail: format!("panicked: {}", p.message) }),
+            Ok(Err(e)) => Err(Fail { kind: "encode-error", level: None, excess: 0.0, detail: e }),
+            Ok(Ok(())) => judge(&pal, role, depth, c, &out, true),
+        }
+    } else {
+        eval_once(&pal, &mut enc, &mut out, role, depth, c, true)
+    };
     let bytes1 = format!("{before}{}", crate::engine::util::esc(&out));
     if let Some(c2) = w.get("color2").and_then(|v| v.as_str()).and_then(parse_hex) {
         // monotonicity witness: colour 1 is brighter (by luma) than colour 2 yet shown darker
